@@ -600,6 +600,10 @@ func runC15(c *core.Ctx) {
 		c.Floor("fallible calls in the coordinator's UnmarshalBinary family", n, 30)
 	})
 
+	// a point received from another node is validated for every field type before any consumer reads it: the value
+	// accessors slice and parse without checks of their own and panic on a malformed value (shared with C12 D5)
+	c.Clause("D9", func() { runBinaryPointDispatch(c) })
+
 	c.Clause("D7", func() {
 		n := connPoisonRule(c, "failed-exchange-poisons-connection")
 		c.Floor("exchange sites on pooled connections", n, 28)
